@@ -118,7 +118,7 @@ def run_check(prop_id, mod_name, tier, n_cases, wall_cap, level, rule, assumptio
             if time.time() - t0 > wall_cap:
                 pool.terminate()
                 break
-            if len([1 for (_, v) in violations if v.known is None]) >= 8:
+            if len([1 for (_, v) in violations if v.known is None]) >= int(os.environ.get("S4SIM_MAXVIOL", "8")):
                 pool.terminate()
                 break
     core.cleanup_scratch()
@@ -143,6 +143,9 @@ def run_check(prop_id, mod_name, tier, n_cases, wall_cap, level, rule, assumptio
             seen_known.add(v.known)
     for ln in known_lines:
         print(ln)
+    if os.environ.get("S4SIM_VERBOSE"):
+        for (i, v) in sorted(violations, key=lambda x: x[0]):
+            print("  [case %d] %s known=%s :: %s" % (i, v.cls, v.known, v.detail[:260].replace("\n", " ")))
     rc = 0
     vio_paths = []
     if unknown:
